@@ -85,7 +85,11 @@ func Render(d Doc, l Layout) (string, []LineInfo) {
 		for ei, e := range r.Entries {
 			text := ind + e.ValueLit()
 			if len(e.Summary) > 0 && e.Summary[0] != "" {
-				text += " " + string(e.Summary[0])
+				sep := e.Sep
+				if sep == "" {
+					sep = " "
+				}
+				text += sep + string(e.Summary[0])
 			}
 			add(text, RoleEntry, ri, ei)
 			for k := 1; k < len(e.Summary); k++ {
